@@ -179,6 +179,16 @@ func join(s []string) string {
 	return out
 }
 
+// bfFillCase: a filter of the given size filled in order and pushed over the edge a few times.
+func bfFillCase(size int) []string {
+	ops := []string{fmt.Sprintf("bf new %d", size)}
+	for x := 0; x < size+3; x++ {
+		ops = append(ops, fmt.Sprintf("bf add %d", x))
+	}
+
+	return append(ops, "bf has 0", "bf has 2", "bf has 3", fmt.Sprintf("bf has %d", size+2), "bf add 1", fmt.Sprintf("bf all %d", size+4), "bf state")
+}
+
 var bfContainer = container{
 	name: "bf",
 	mk: func(a []string) world {
@@ -240,6 +250,7 @@ var bfContainer = container{
 		{"bf new 0", "bf has 1", "bf add 1", "bf all 6"},
 		// sizes beyond 2 (the append after the first eviction re-allocates with a capacity chosen by the runtime)
 		{"bf new 3", "bf add 0", "bf add 1", "bf add 2", "bf add 3", "bf add 4", "bf has 1", "bf all 6", "bf state", "bf add 5", "bf add 0", "bf all 6", "bf state"},
+		bfFillCase(17), bfFillCase(256),
 		{"bf new 5", "bf addb 0", "bf addb 1", "bf addb 2", "bf addb 3", "bf addb 4", "bf addb 5", "bf addb 6", "bf hasb 0", "bf hasb 1", "bf hasb 2", "bf addb 7", "bf addb 8", "bf addb 9", "bf all 10", "bf state",
 			"bf addb 10", "bf addb 11", "bf addb 12", "bf all 13", "bf state"},
 	},
